@@ -1205,6 +1205,22 @@ def run_server(case) -> CaseResult:
                         # and "rejected as a bad message" are legal, nothing
                         # else is
                         info['or_badmsg'] = True
+
+                        if v < 6 and info.get('ext') is None and \
+                                info['op'] not in ('LINK', 'BLOCK', 'UNBLOCK'):
+                            # ... but asyncssh's own rule for versions 3-5 is
+                            # that a body longer than its fields is malformed
+                            # (`if self._version < 6: packet.check_end()` in
+                            # every handler): a handler that lets an extended
+                            # body through has lost that check.  (LINK, BLOCK
+                            # and UNBLOCK only exist in version 6, whose
+                            # receivers ignore trailing data; asyncssh serves
+                            # them in lower versions as a courtesy)
+                            info['expect'] = {W.FX_BAD_MESSAGE}
+                            info['legal'] = {STATUS}
+                            info.pop('opens', None)
+                            info.pop('closes', None)
+                            labels.add('trail:v<6')
                     else:
                         labels.add('var:valid')
 
@@ -2264,11 +2280,47 @@ def client_strategy(tier: str):
     return build()
 
 
+def enum_bodies(tier: str):
+    """Every request type in every negotiated version, with its body cut at
+    every field boundary (and inside the first and last field) and extended
+    by one and by five bytes: the finite core of the property's "every
+    truncation or extension of its body" """
+
+    attrs = {'permissions': 0o644}
+    first = [{'a': attrs, 'badflags': False, 'flags': 0x2b, 'id': 1,
+              'op': 'OPEN', 'p': '/w/x0', 'var': 'valid'},
+             {'badflags': False, 'id': 2, 'op': 'OPENDIR', 'p': '/d',
+              'var': 'valid'}]
+
+    for v in (3, 4, 5, 6):
+        for op in OPS:
+            base: Dict[str, Any] = {
+                'op': op, 'id': 9, 'p': '/f', 'h': ['live', 0],
+                'h2': ['live', 0], 'off': 0, 'off2': 0, 'len': 10,
+                'a': attrs, 'data': b'w', 'flags': 0, 'badflags': False,
+                'check': 1, 'compose': [], 'w1': 0, 'w2': 1}
+
+            if op in ('READDIR',):
+                base['h'] = ['live', 1]
+
+            variants: List[Dict[str, Any]] = \
+                [{'var': 'trail', 'extra': b'\x00'},
+                 {'var': 'trail', 'extra': b'JUNK\x01'}]
+            variants += [{'var': 'trunc', 'cut': ['b', i]}
+                         for i in range(8)]
+            variants += [{'var': 'trunc', 'cut': ['o', k]}
+                         for k in (1, 2, 5, 397)]
+
+            for var in variants:
+                yield {'attrs': [], 'chunks': [], 'frag': [], 'cv': v,
+                       'sv': 6, 'batches': [first, [dict(base, **var)]]}
+
+
 FAMILIES = [
     Family('server', run_server, strategy=server_strategy,
            budget={'quick': 1280, 'thorough': 20000},
            required={'all': ['v3', 'v4', 'v5', 'v6', 'var:valid', 'var:trunc',
-                             'var:trail', 'var:unktype', 'var:unkext',
+                             'var:trail', 'trail:v<6', 'var:unktype', 'var:unkext',
                              'trunc:boundary', 'trunc:byte', 'pipelined>=4',
                              'id-reused', 'inject:errno', 'inject:sftp',
                              'inject:attrs', 'fragmented'] +
@@ -2277,6 +2329,10 @@ FAMILIES = [
                                              'NAME', 'ATTRS',
                                              'EXTENDED_REPLY')]},
            case_timeout=60),
+    Family('bodies', run_server, enumerate=enum_bodies,
+           required={'all': ['v3', 'v4', 'v5', 'v6', 'var:trunc',
+                             'var:trail', 'trail:v<6'] +
+                     ['op:' + op for op in OPS]}),
     Family('client', run_client, strategy=client_strategy,
            budget={'quick': 1280, 'thorough': 20000},
            required={'all': ['v3', 'v4', 'v5', 'v6', 'k>=2', 'k>=5',
